@@ -60,8 +60,9 @@ type Spec struct {
 	Edges   []Edge   `json:"edges"`
 	PEdges  []Edge   `json:"pedges"`
 	Feeds   []Feed   `json:"feeds"`
-	Mode    string   `json:"mode"`
-	Targets []string `json:"targets"`
+	Mode     string   `json:"mode"`
+	Targets  []string `json:"targets"`
+	Patterns []string `json:"patterns"` // runtoregex: the regular expressions (targets = the names they resolve to)
 }
 
 func die(f string, a ...interface{}) {
@@ -70,6 +71,7 @@ func die(f string, a ...interface{}) {
 }
 
 func split2(s string) (string, string) {
+	s = strings.TrimSuffix(s, ">") // out-ports of pcomb processes are written "proc.port>" in the wfspec
 	i := strings.LastIndex(s, ".")
 	if i < 0 {
 		die("bad port reference %q", s)
@@ -220,6 +222,12 @@ func main() {
 				return m
 			})
 			procs[p.Name], owners[p.Name] = c, c
+		case "pcomb":
+			c := components.NewParamCombinator(wf, p.Name)
+			for _, q := range p.Params {
+				c.InParam(q)
+			}
+			procs[p.Name], owners[p.Name] = c, c
 		case "substream":
 			c := components.NewStreamToSubStream(wf, p.Name)
 			procs[p.Name], owners[p.Name] = c, c
@@ -251,7 +259,7 @@ func main() {
 	case "runto":
 		wf.RunTo(spec.Targets...)
 	case "runtoregex":
-		wf.RunToRegex(spec.Targets...)
+		wf.RunToRegex(spec.Patterns...)
 	case "runtoprocs":
 		ps := []sp.WorkflowProcess{}
 		for _, t := range spec.Targets {
